@@ -15,6 +15,10 @@ for t in $drivers; do lake build $t || { echo "setup: driver $t failed"; rc=1; }
 lake build $mods || { echo "setup: some property modules failed; building them one by one"; for m in $mods; do lake build $m >/dev/null 2>&1 || echo "setup: FAILED $m"; done; rc=1; }
 cd ../harness
 cargo build --profile verif || { echo "setup: harness build failed"; rc=1; }
+# compile-fail probes of the static guards (tools/guard_probes.py); warms their target dir, never fatal
+cd ..
+python3 tools/guard_probes.py ans range chain cat quant | tail -1 || true
+cd harness
 # the Python front end (pyo3 extension) used by the `py` oracle component; a failure here is not
 # fatal (the checks then report the Python campaign as unavailable, never as a violation)
 cd ..
